@@ -430,6 +430,12 @@ func (p *Parser) parsePathExpr() *ast.PathExpr {
 		}
 	}
 
+	if len(values) == 0 {
+		// the route has no path at all, e.g. `get (Req)`
+		p.expectPeekToken(token.QUO)
+		return nil
+	}
+
 	var textList []string
 	for _, v := range values {
 		textList = append(textList, v.Text)
